@@ -115,6 +115,13 @@ def _build_replay(features=()):
         cmd += ['--features', ','.join(features)]
     p = subprocess.run(cmd, env=env, capture_output=True, text=True)
     if p.returncode != 0:
+        if 'no-fragile-witnesses' not in features:
+            # some of the really derived witness types are chosen to be awkward (a doc comment with lone braces, ..): a change under
+            # which the expansion of one of THEM no longer compiles must not take every other oracle of the replay program with it
+            try:
+                return _build_replay(tuple(features) + ('no-fragile-witnesses',))
+            except RuntimeError:
+                pass
         raise RuntimeError('replay build failed:\n' + p.stderr[-3000:])
     return os.path.join(env['CARGO_TARGET_DIR'], 'debug', 'replay')
 
